@@ -274,13 +274,24 @@ def coreStep (st : CoreSt) (j : Json) : Except String (CoreSt × String) := do
   let allocRejected := op == "alloc" && msgs.any (fun m => (jStr (fldD m "t" (.str ""))).toOption.getD "" == "alloc-rejected")
   let sendAll (v : ShimView) : ShimView := if allocRejected then v else (shimSendMsgs op j).foldl (fun v m => (v.step m).getD v) v
   let v1 := if removal then st.shim else sendAll st.shim
-  let (v2', protoErr) := msgs.foldl (fun (acc : ShimView × Option String) m =>
-      match acc.2, shimRecvMsg m with
-      | some _, _ => acc
-      | none, none => acc
-      | none, some sm => match acc.1.step sm with
-        | some v => (v, none)
-        | none => (acc.1, some (shimWhy acc.1 sm))) (v1, none)
+  -- a scheduling cycle interrupted by an RM removal request between the decision and its confirmation: the core first
+  -- answers the removal (release messages), the request then takes effect in the shim's view, and whatever the core
+  -- announces afterwards (the allocation it confirms) is judged against the view after the removal
+  let (eop, ej) : String × Json := match (if op == "schedule" then (j.getObjVal? "interrupt").toOption else none) with
+    | some ij => ((jStr (fldD ij "op" (.str ""))).toOption.getD "", ij)
+    | none => (op, j)
+  let interrupted := op == "schedule" && eop != "schedule"
+  let sendInt (v : ShimView) : ShimView := (shimSendMsgs eop ej).foldl (fun v m => (v.step m).getD v) v
+  let (v2i, protoErr, intApplied) := msgs.foldl (fun (acc : ShimView × Option String × Bool) m =>
+      let isAlloc := (jStr (fldD m "t" (.str ""))).toOption.getD "" == "alloc"
+      let (v0, ap) := if interrupted && !acc.2.2 && isAlloc then (sendInt acc.1, true) else (acc.1, acc.2.2)
+      match acc.2.1, shimRecvMsg m with
+      | some e, _ => (v0, some e, ap)
+      | none, none => (v0, none, ap)
+      | none, some sm => match v0.step sm with
+        | some v => (v, none, ap)
+        | none => (v0, some (shimWhy v0 sm), ap)) (v1, none, false)
+  let v2' := if interrupted && !intApplied then sendInt v2i else v2i
   let v2 := if removal then sendAll v2' else v2'
   let placed := if op == "alloc" && (jStr (fldD j "node" (.str ""))).toOption.getD "" != "" then
       (jStr (fldD j "key" (.str ""))).toOption.getD "" :: st.rmPlaced else st.rmPlaced
@@ -319,9 +330,9 @@ def coreStep (st : CoreSt) (j : Json) : Except String (CoreSt × String) := do
   -- Known class (KNOWN_FINDINGS C03.I7r / C04): the RM releases a real ask whose placeholder replacement is in flight.
   -- removeAllocation does not find it among the allocations and only drops the ask: the real half already placed on
   -- another node stays there, and the confirmation of the swap later announces the released ask as a new allocation.
-  let relKey := if op == "release" then (jStr (fldD j "key" (.str ""))).toOption.getD "" else ""
-  let relApp := if op == "app-remove" then (jStr (fldD j "id" (.str ""))).toOption.getD ""
-                else if op == "release" && relKey == "" then (jStr (fldD j "app" (.str ""))).toOption.getD "" else ""
+  let relKey := if eop == "release" then (jStr (fldD ej "key" (.str ""))).toOption.getD "" else ""
+  let relApp := if eop == "app-remove" then (jStr (fldD ej "id" (.str ""))).toOption.getD ""
+                else if eop == "release" && relKey == "" then (jStr (fldD ej "app" (.str ""))).toOption.getD "" else ""
   let releasedNow : List String := match st.prev with
     | some pre =>
         (pre.liveApps.map (fun a => (a.items.filter (fun i => i.inflightReal && ((relKey != "" && i.key == relKey) || (relApp != "" && a.id == relApp)))).map (·.key))).flatten
@@ -339,12 +350,12 @@ def coreStep (st : CoreSt) (j : Json) : Except String (CoreSt × String) := do
   -- rolled back: the real ask is pending again in a Completing application
   let keyOf (f : String) : String := ((f.splitOn " ").getLast!.splitOn "@").head!
   let rolledNow : List String := match st.prev with
-    | some pre => if !(op == "node" && (jStr (fldD j "action" (.str ""))).toOption.getD "" == "decommission") then [] else
+    | some pre => if !(eop == "node" && (jStr (fldD ej "action" (.str ""))).toOption.getD "" == "decommission") then [] else
         (pre.liveApps.filter (fun a => a.items.any (·.inflightReal))).map (·.id)
     | none => []
   -- Known class (KNOWN_FINDINGS C06): the RM itself releases a placeholder whose swap is in flight (STOPPED_BY_RM by key, for
   -- the whole application): the placeholder goes, its real half stays allocated-but-unbound for good
-  let relType := if op == "release" then (jStr (fldD j "type" (.str ""))).toOption.getD "" else ""
+  let relType := if eop == "release" then (jStr (fldD ej "type" (.str ""))).toOption.getD "" else ""
   let phGoneNow : List String := match st.prev with
     | some pre => if !(relType == "STOPPED_BY_RM" || relType == "UNKNOWN") then [] else
         (pre.liveApps.map (fun a => (a.items.filterMap (fun i =>
